@@ -8,6 +8,7 @@ import (
 	"sync/atomic"
 	"time"
 
+	"github.com/arloliu/go-secs/v2/internal/vhook"
 	"github.com/arloliu/go-secs/v2/logger"
 )
 
@@ -176,6 +177,8 @@ func (e *epoch) teardown(timeout time.Duration) {
 	e.closeOnce.Do(func() {
 		// Single-owner (F4): cancel the generation ctx so ctx-aware tasks unwind.
 		e.cancel()
+
+		vhook.At("hsms.teardown.afterCancel")
 
 		// J5: close the socket BEFORE the join so a task parked in conn.Read (which
 		// does NOT watch ctx) is unblocked and can exit — otherwise the bounded join
